@@ -22,6 +22,16 @@ CHECKS = {
         "note": "Trusted: Python ast, E1 resolver, numpy indexing semantics, scipy.signal.convolve2d, the reference forms.",
         "technique": "static analysis: abstract evaluation of kernels to polynomial normal forms + canonical-form equality; slim-traversal typestate; must-raise dominance; zero-test guard rule",
     },
+    "C04": {
+        "text": "Decides, for every mask, PSF shape (non-square, signed) and linear-object list, the structural clauses behind D = B^T N^-1 d and F = B^T N^-1 B: the w-tilde data term and overlap value "
+                "index the native noise/image arrays at pixel + k - floor(K/2) with each axis shifted by its own kernel half-width (canonical-form equality), second kernel index bounded per axis, "
+                "axis-pure no-overlap shortcut; the sparse overlap table enumerates the upper triangle, keeps every non-zero overlap (zero-test only), halves the diagonal iff the consumer adds the transpose, "
+                "with exact slot / length / flat counters; unique-mapping kernels accumulate w0*w1*overlap into F[pix0,pix1] and w*w_tilde_data into D[pix]; mapping formalism is d*B/sigma^2 and (B/sigma)^T(B/sigma); "
+                "the small diagonal term is added only at the no-regularization indices, only when that list is non-empty, at every call site; block offsets advance by params once per object, unconditionally. "
+                "Not decided: numerical agreement of the two formalisms, symmetry to rounding, reconstruction equality.",
+        "note": "Trusted: Python ast, E1 resolver, numpy indexing/broadcast semantics, np.dot, the reference forms.",
+        "technique": "static analysis: abstract evaluation of kernels to polynomial normal forms + canonical-form equality; counter typestate; zero-test guard rule; call-site guard/argument rule over the resolved call graph",
+    },
 }
 
 NOT_APPLICABLE = {f"C{n:02d}": PENDING for n in range(1, 21) if f"C{n:02d}" not in CHECKS}
